@@ -3,8 +3,8 @@ From Coq Require Import List NArith ZArith Bool.
 From MV Require Import Common.Sx Common.Bytes Emf.Model.
 Import ListNotations.
 
-Lemma finish_validation_no_bytes c now w script s msgs out :
-  finish c now w script = (s, RValidation msgs, out) -> out = [] /\ msgs <> [].
+Lemma finish_validation_no_bytes c now w dim cnt script s msgs out :
+  finish c now w dim cnt script = (s, RValidation msgs, out) -> out = [] /\ msgs <> [].
 Proof.
   unfold finish.
   destruct (errors w ++ (if negb (skip_dims c) && negb (unroutable w) then missing_dim_errors w else [])) as [|e es] eqn:He.
@@ -22,8 +22,8 @@ Lemma format_validation_no_bytes c s mult e now ftab script s' msgs out :
 Proof. unfold format. apply finish_validation_no_bytes. Qed.
 
 (* Conversely, whenever any error was recorded the call is rejected. *)
-Lemma finish_errors_reject c now w script :
-  errors w <> [] -> exists msgs, finish c now w script = (w_state w, RValidation msgs, []).
+Lemma finish_errors_reject c now w dim cnt script :
+  errors w <> [] -> exists msgs, finish c now w dim cnt script = (mk_fstate (w_state w) dim cnt, RValidation msgs, []).
 Proof.
   intros Hne. unfold finish.
   destruct (errors w) as [|e es] eqn:He; [congruence|].
